@@ -38,8 +38,8 @@ def releases(fn, T):
     for bb, t in fn.calls_to(lambda f: M.callee_str(f) == "std::option::Option::<T>::take"):
         a = M.noref(T.operand(t["args"][0]))
         if a[0] == "field" and a[2] in ("stdin", "stdout", "stderr") and not t["dest"]["proj"]:
-            # result must not be kept: never read (only dropped)
-            if not reads.get(t["dest"]["l"]):
+            # result must not be kept: never read, or only handed to mem::drop
+            if only_dropped(fn, t["dest"]["l"], reads):
                 out.append((bb, a[1], a[2]))
     for bb in sorted(fn.live_blocks()):
         for si, s in enumerate(fn.blocks[bb]["stmts"]):
